@@ -795,7 +795,20 @@ class Tensor:
         return self.split(n, dim)
 
     def narrow(self, dim, start, length):
-        d = dim % self.a.ndim
+        nd = self.a.ndim
+        if not -nd <= dim < max(nd, 1):
+            raise IndexError('Dimension out of range (expected to be in range of [%d, %d], but got %d)' % (-nd, nd - 1, dim))
+        d = dim % nd
+        n = self.a.shape[d]
+        start = int(start); length = int(length)
+        if length < 0:
+            raise RuntimeError('narrow(): length must be non-negative.')
+        if not -n <= start <= n:
+            raise IndexError('start out of range (expected to be in range of [%d, %d], but got %d)' % (-n, n, start))
+        if start < 0:
+            start += n
+        if start + length > n:
+            raise RuntimeError('start (%d) + length (%d) exceeds dimension size (%d).' % (start, length, n))
         return self._view(self.a[(slice(None),) * d + (slice(start, start + length),)])
 
     def select(self, dim, index):
